@@ -450,7 +450,9 @@ Print Assumptions C03_atomic_target_pruned_refuted.
 (* C03_atomic_upgrade_hooks — C03_atomic_upgrade with hooks ENABLED, with the second disjunct of
    the K6 exclusion, and with a history limit.  Hypotheses beyond those of C03_atomic_upgrade:
    - K9 excluded: hooks are disabled, or g (the revision rolled back to) has no pre-/post-rollback
-     hooks — K9's witness C03_atomic_recovery_hook_refuted shows what a recovery hook can do;
+     hooks, or none of its rollback hooks can collide: each carries the before-hook-creation policy,
+     is no CRD and sits on no key of the two manifests (and no hook fault is planned) — K9's witness
+     C03_atomic_recovery_hook_refuted shows what a colliding recovery hook does;
    - the hooks of the failed target that run on pre-/post-upgrade carry the before-hook-creation
      policy (the default when a hook names none) and are not CRDs, so that no creation is refused
      with "already exists", and no pre-upgrade hook object sits on a key of the two manifests;
@@ -469,7 +471,10 @@ Theorem C03_atomic_upgrade_hooks :
     max_rev_of (filter (fun r => status_eqb (st r) SSuperseded || status_eqb (st r) SDeployed) (w_led w)) = Some g ->
     NoDup (map rkey mani) -> NoDup (map rkey (manifest g)) ->
     (forall r, In r (manifest g) -> NoDup (akeys (r_fields r))) ->
-    (f_no_hooks fl = true \/ (hooks_for PreRollback (hooks g) = [] /\ hooks_for PostRollback (hooks g) = [])) ->
+    (f_no_hooks fl = true \/ (hooks_for PreRollback (hooks g) = [] /\ hooks_for PostRollback (hooks g) = []) \/
+     (forall h, In h (hooks_for PreRollback (hooks g) ++ hooks_for PostRollback (hooks g)) ->
+                has_policy h BeforeHookCreation = true /\ String.eqb (h_kind h) "CustomResourceDefinition" = false /\
+                in_keys (rkey (h_res h)) (manifest g) = false /\ in_keys (rkey (h_res h)) mani = false)) ->
     (f_no_hooks fl = true \/
      ((forall h, In h (hooks_for PreUpgrade hks ++ hooks_for PostUpgrade hks) ->
                  has_policy h BeforeHookCreation = true /\ String.eqb (h_kind h) "CustomResourceDefinition" = false) /\
@@ -585,3 +590,22 @@ Example C03_atomic_upgrade_hook_fault_example :
     data_view w' = [("ConfigMap/a", Some "v1"); ("ConfigMap/b", Some "v1")].
 Proof. exact atomic_upgrade_hook_fault_example. Qed.
 Print Assumptions C03_atomic_upgrade_hook_fault_example.
+
+(* well-behaved ROLLBACK hooks in the revision rolled back to: install {a,b} with hr on pre- and
+   post-rollback (default policy); upgrade --atomic to {a',b'} with PATCH b rejected: the recovery
+   runs hr twice and restores revision 1 *)
+Example C03_atomic_upgrade_rollback_hooks_example :
+  f_no_hooks fl_atomic = false /\
+  max_rev_of (filter good_filter (w_led rh_w1)) = Some rh_g /\
+  hooks_for PreRollback (hooks rh_g) = [rh_hr] /\ hooks_for PostRollback (hooks rh_g) = [rh_hr] /\
+  has_policy rh_hr BeforeHookCreation = true /\ String.eqb (h_kind rh_hr) "CustomResourceDefinition" = false /\
+  in_keys (rkey (h_res rh_hr)) (manifest rh_g) = false /\ in_keys (rkey (h_res rh_hr)) rh_mani = false /\
+  hooks_for PreUpgrade [rh_hr] = [] /\ hooks_for PostUpgrade [rh_hr] = [] /\
+  cf_h hx_cf = None /\ cf_wait hx_cf = false /\
+  (forall r, In r (manifest rh_g) -> in_keys (rkey r) rh_mani = true) /\
+  exists w' t,
+    run_store_op "rel" "default" (mkOp (OpUpgrade fl_atomic 2 2 rh_mani [rh_hr]) ContainLedger.nofault hx_cf) rh_w1 = (w', OErr EOtherErr, t) /\
+    statuses (w_led w') = [(1, SSuperseded); (2, SFailed); (3, SDeployed)] /\
+    data_view w' = [("ConfigMap/a", Some "v1"); ("ConfigMap/b", Some "v1"); ("ConfigMap/hr", None)].
+Proof. exact atomic_upgrade_rollback_hooks_example. Qed.
+Print Assumptions C03_atomic_upgrade_rollback_hooks_example.
